@@ -89,9 +89,21 @@ fn snap<A, S: BumpAllocatorSettings>(st: Option<Stats<'_, A, S>>, fallback: Stat
         Some(s) if s.current_chunk().is_some() => s,
         _ => fallback,
     };
+    // Chunks after the current one are unused: the position stored in them is stale by design (it is only reset when
+    // such a chunk becomes current again), so they are recorded as empty.
+    let cur = st.current_chunk().map(|c| c.chunk_start().as_ptr() as usize);
+    let mut after_current = false;
+    let up = S::UP;
     let chunks = st
         .small_to_big()
-        .map(|c| (c.chunk_start().as_ptr() as usize, c.content_start().as_ptr() as usize, c.content_end().as_ptr() as usize, c.bump_position().as_ptr() as usize))
+        .map(|c| {
+            let (cs, lo, hi) = (c.chunk_start().as_ptr() as usize, c.content_start().as_ptr() as usize, c.content_end().as_ptr() as usize);
+            let pos = if after_current { if up { lo } else { hi } } else { c.bump_position().as_ptr() as usize };
+            if Some(cs) == cur {
+                after_current = true;
+            }
+            (cs, lo, hi, pos)
+        })
         .collect();
     rep.snaps.push(PosSnap { tag, chunks });
 }
